@@ -76,6 +76,16 @@ Theorem C03_unbounded_sound_partial : forall k,
 Proof. intros k Hs Hc. pose proof (cert_case_sound k Hc) as H. unfold case_claim in H. rewrite Hs in H. exact H. Qed.
 Print Assumptions C03_unbounded_sound_partial.
 
+(* ---- row equilibration (solve_lp divides every constraint row and its rhs by the row's largest |coefficient|): for sc > 0
+   the scaled row with slack s holds iff the original row holds with slack sc * s - the feasible set is unchanged *)
+Theorem C03_row_scale_equiv : forall sc ax s b, 0 < sc -> (ax / sc + s == b / sc <-> ax + sc * s == b).
+Proof. exact row_scale_equiv. Qed.
+Print Assumptions C03_row_scale_equiv.
+
+Theorem C03_row_scale_pos : forall r, 0 < row_scale r.
+Proof. exact row_scale_pos. Qed.
+Print Assumptions C03_row_scale_pos.
+
 (* ---- per-run certificates: the boolean checkers evaluated by the cert_* lemmas of every check run *)
 Theorem C03_cert_optimal_sound : forall tol minimize c A b x obj y,
   cert_optimal_check tol minimize c A b x obj y = true ->
